@@ -11,7 +11,10 @@ class StampPool:
     def __init__(self, rng, origins=3, window=True):
         self.rng, self.window = rng, window
         self.origins = rng.shuffle([0, 1, 2, 7, 255])[:origins]
-        self.base = {n: T0 + rng.choice([0, 4, 1000, 123456]) for n in self.origins}
+        # one pool in six starts at the datacake epoch itself (stamps whose time part is 0 ms: the subtraction of the
+        # forgiveness period saturates there)
+        t0 = 0 if rng.chance(1, 6) else T0
+        self.base = {n: t0 + rng.choice([0, 4, 1000, 123456]) for n in self.origins}
         self.used = set()
 
     def stamp(self, node=None):
